@@ -1,187 +1,265 @@
-// failurelabel: core/task/manager.go handleMessage, case taskop.TaskStatusMessage - which terminal
-// Mesos states make an owned task go to ERROR, and what the guard of that decision looks at (C03,
-// model Watcher.v: a terminal status of an owned, locked task puts the state ERROR in flight
-// whatever its reason code, source, route or optional fields).
+// failurelabel: core/task - under which condition the handling of a Mesos task status puts the task
+// of the status into ERROR (C03, model Watcher.v: a terminal status of an owned, locked task puts
+// the state ERROR in flight whatever its reason code, source, route or optional fields).
+// Read semantically (harness/cmd/translate/symwalk.go): the body of Manager.handleMessage and of the
+// helpers it calls is walked with a path condition; the marker is "a function of this package is
+// called with the task id of the status and the state name ERROR" (literal, named constant or
+// sm.ERROR.String()); the condition is evaluated on every assignment of what it looks at.  So
+// helper extraction, renamed locals and callees, named constants, if/else <-> switch, early
+// returns, merged or split case arms give the same facts; a decision that looks at the reason, the
+// presence of optional fields or anything else taken from the status does not.
 package main
 
 import (
 	"fmt"
 	"go/ast"
+	"os"
+	"regexp"
 	"sort"
 	"strings"
+
+	mesos "github.com/mesos/mesos-go/api/v1/lib"
 )
 
 func init() { translators["failurelabel"] = failureLabel }
 
 var mesosStateCode = map[string]int{"TASK_FAILED": 1, "TASK_LOST": 2, "TASK_KILLED": 3, "TASK_ERROR": 7}
 
-// goErrorCall: `go <x>.updateTaskState(<id>, "ERROR")`
-func isGoError(n ast.Node) bool {
-	g, ok := n.(*ast.GoStmt)
-	if !ok {
-		return false
-	}
-	sel, ok := g.Call.Fun.(*ast.SelectorExpr)
-	if !ok || sel.Sel.Name != "updateTaskState" || len(g.Call.Args) != 2 {
-		return false
-	}
-	v, ok := strLit(g.Call.Args[1])
-	return ok && v == "ERROR"
-}
-
-func containsGoError(n ast.Node) bool {
-	found := false
-	ast.Inspect(n, func(x ast.Node) bool {
-		if x != nil && isGoError(x) {
-			found = true
-		}
-		return !found
-	})
-	return found
-}
+var errorNameExpr = regexp.MustCompile(`(^|\.)ERROR\.String\(\)$`)
 
 func failureLabel() string {
-	const rel = "core/task/manager.go"
-	_, f := parseFile(rel)
-	fd := findFunc(f, "Manager", "handleMessage")
+	pkg := loadSymPkg("core/task")
+	fd := rcMethod(pkg, "Manager", "handleMessage")
 	if fd == nil {
-		die("%s: (Manager) handleMessage not found", rel)
-	}
-	// the case clause of taskop.TaskStatusMessage
-	var statusClause *ast.CaseClause
-	ast.Inspect(fd.Body, func(n ast.Node) bool {
-		cc, ok := n.(*ast.CaseClause)
-		if ok {
-			for _, e := range cc.List {
-				if sel, ok := e.(*ast.SelectorExpr); ok && sel.Sel.Name == "TaskStatusMessage" {
-					statusClause = cc
+		// renamed: the method of Manager that dispatches on taskop.TaskStatusMessage
+		for _, cands := range pkg.funcs {
+			for _, c := range cands {
+				if recvTypeName(c) == "Manager" && c.Body != nil && pwMentions(c.Body, "TaskStatusMessage") {
+					fd = c
 				}
 			}
 		}
-		return statusClause == nil
-	})
-	if statusClause == nil {
-		die("%s: case taskop.TaskStatusMessage not found", rel)
 	}
-	// the (only) place where the state ERROR is sent
-	var sites int
-	ast.Inspect(statusClause, func(n ast.Node) bool {
-		if n != nil && isGoError(n) {
-			sites++
-		}
-		return true
-	})
-	if sites != 1 {
-		die("%s: expected one `go m.updateTaskState(id, \"ERROR\")` in the status case, found %d", rel, sites)
+	if fd == nil {
+		die("core/task: the Manager method that handles taskop.TaskStatusMessage was not found")
 	}
-	// the case clause of the state switch that holds it, and the if statements around it inside that clause
-	var stateClause *ast.CaseClause
-	ast.Inspect(statusClause, func(n ast.Node) bool {
-		cc, ok := n.(*ast.CaseClause)
-		if ok && cc != statusClause && containsGoError(cc) {
-			stateClause = cc
+	w := &symWalk{pkg: pkg, recvType: "Manager", markers: map[string]*form{}, maxDepth: 3}
+	w.onCall = func(w *symWalk, c *ast.CallExpr, env *senv) string {
+		if len(c.Args) != 2 || pkg.callee(c, w.recvType) == nil {
+			return ""
 		}
-		return true
-	})
-	if stateClause == nil {
-		die("%s: the ERROR update is not inside a case of a switch on the Mesos state", rel)
+		if w.val(c.Args[0], env).kind != svTaskId {
+			return ""
+		}
+		v := w.val(c.Args[1], env)
+		if (v.kind == svStr && v.name == "ERROR") || errorNameExpr.MatchString(w.src(c.Args[1])) {
+			return "error"
+		}
+		return ""
 	}
-	var states []int
-	for _, e := range stateClause.List {
-		sel, ok := e.(*ast.SelectorExpr)
-		if !ok {
-			die("%s: unexpected expression in the case list", rel)
-		}
-		c, ok := mesosStateCode[sel.Sel.Name]
-		if !ok {
-			c = 99 // a state the model does not know as a failure
-		}
-		states = append(states, c)
+	w.walk(fd.Body.List, fT, rcRootEnv(fd, sval{kind: svMsg}))
+	f := w.markers["error"]
+	if f == nil {
+		die("core/task: handling a task status never puts the task of the status into ERROR (no call with its task id and the state name ERROR)")
 	}
-	sort.Ints(states)
-	// identifiers bound to the roster entry of the task (x := m.GetTask(..) / m.roster.getByTaskId(..))
-	taskVars := map[string]bool{}
-	ast.Inspect(statusClause, func(n ast.Node) bool {
-		as, ok := n.(*ast.AssignStmt)
-		if !ok || len(as.Lhs) != 1 || len(as.Rhs) != 1 {
-			return true
-		}
-		call, ok := as.Rhs[0].(*ast.CallExpr)
-		if !ok {
-			return true
-		}
-		if sel, ok := call.Fun.(*ast.SelectorExpr); ok && (sel.Sel.Name == "GetTask" || sel.Sel.Name == "getByTaskId") {
-			if id, ok := as.Lhs[0].(*ast.Ident); ok {
-				taskVars[id.Name] = true
+	// what the condition looks at
+	set := map[string]bool{}
+	f.atoms(set)
+	tainted := taintedIdents(fd)
+	var stateAtoms, labelAtoms, opaque []string
+	dispatch := map[string]bool{}
+	for a := range set {
+		switch {
+		case strings.HasPrefix(a, "S:"):
+			stateAtoms = append(stateAtoms, a)
+		case a == "I":
+		case strings.HasPrefix(a, "R:"), a == "HasExec", a == "HasAgent":
+			labelAtoms = append(labelAtoms, a)
+		case strings.Contains(a, "TaskStatusMessage"):
+			dispatch[a] = true
+		default:
+			if atomLooksAtStatus(a, tainted) {
+				labelAtoms = append(labelAtoms, a)
+			} else {
+				opaque = append(opaque, a) // the task's own fields (IsLocked)
 			}
 		}
-		return true
-	})
-	// guards: every if (and other branching statement) between the case clause and the go statement
-	guards, foreign, otherBranch := 0, 0, 0
-	var walk func(n ast.Node)
-	walk = func(n ast.Node) {
-		switch v := n.(type) {
-		case *ast.IfStmt:
-			if containsGoError(v.Body) {
-				guards++
-				ast.Inspect(v.Cond, func(x ast.Node) bool {
-					if id, ok := x.(*ast.Ident); ok {
-						switch {
-						case taskVars[id.Name], id.Name == "nil", id.Name == "IsLocked", id.Name == "isLocked":
-						default:
-							foreign++
-						}
-					}
-					return true
-				})
-				for _, st := range v.Body.List {
-					walk(st)
+	}
+	sort.Strings(labelAtoms)
+	sort.Strings(opaque)
+	if len(opaque)+len(labelAtoms) > 14 {
+		die("core/task: the ERROR decision looks at too many things (%d conditions)", len(opaque)+len(labelAtoms))
+	}
+	var stateNames []string
+	for _, n := range mesos.TaskState_name {
+		stateNames = append(stateNames, n)
+	}
+	sort.Strings(stateNames)
+	free := append(append([]string{}, labelAtoms...), opaque...)
+	eval := func(state string, inRoster bool, mask int) bool {
+		return f.eval(func(a string) bool {
+			switch {
+			case strings.HasPrefix(a, "S:"):
+				return strings.TrimPrefix(a, "S:") == state
+			case a == "I":
+				return inRoster
+			case dispatch[a]:
+				return true
+			}
+			for i, x := range free {
+				if x == a {
+					return mask&(1<<i) != 0
 				}
-			} else if v.Else != nil && containsGoError(v.Else) {
-				otherBranch++ // reached only when some other condition fails
-				walk(v.Else)
 			}
-		case *ast.BlockStmt:
-			for _, st := range v.List {
-				walk(st)
-			}
-		case *ast.SwitchStmt, *ast.TypeSwitchStmt, *ast.ForStmt, *ast.RangeStmt, *ast.SelectStmt:
-			if containsGoError(v) {
-				otherBranch++
-			}
-		}
-	}
-	for _, st := range stateClause.Body {
-		walk(st)
-	}
-	// statements of the status case before the state switch that could leave early
-	early := 0
-	for _, st := range statusClause.Body {
-		if containsGoError(st) {
-			break
-		}
-		ast.Inspect(st, func(x ast.Node) bool {
-			switch x.(type) {
-			case *ast.ReturnStmt, *ast.BranchStmt:
-				early++
-			}
-			return true
+			return false
 		})
 	}
+	// 1. the states: owned, everything about the task itself true (locked), every label condition false
+	taskMask := 0
+	for i := range free {
+		if i >= len(labelAtoms) {
+			taskMask |= 1 << i
+		}
+	}
+	var states []int
+	// (the task's own conditions - IsLocked - in whatever way makes the decision positive)
+	someTask := func(st string) bool {
+		for m := 0; m < 1<<len(opaque); m++ {
+			if eval(st, true, m<<len(labelAtoms)) {
+				return true
+			}
+		}
+		return false
+	}
+	_ = taskMask
+	if os.Getenv("TRANSLATE_DEBUG") != "" {
+		fmt.Fprintln(os.Stderr, "label atoms:", labelAtoms, "task atoms:", opaque, "dispatch:", dispatch)
+	}
+	for _, st := range stateNames {
+		if someTask(st) {
+			c, ok := mesosStateCode[st]
+			if !ok {
+				c = 99
+			}
+			states = append(states, c)
+		}
+	}
+	sort.Ints(states)
+	// 2. label conditions that change the decision for some state / task
+	dep := 0
+	var culprits []string
+	for i, a := range labelAtoms {
+		changes := false
+		for _, st := range stateNames {
+			for _, in := range []bool{false, true} {
+				for m := 0; m < 1<<len(free) && !changes; m++ {
+					if eval(st, in, m) != eval(st, in, m^(1<<i)) {
+						changes = true
+					}
+				}
+			}
+		}
+		if changes {
+			dep++
+			culprits = append(culprits, strings.TrimPrefix(a, "u:"))
+		}
+	}
+	// 3. a task that is not in the roster is never put into ERROR
+	needsRoster := true
+	for _, st := range stateNames {
+		for m := 0; m < 1<<len(free); m++ {
+			if eval(st, false, m) {
+				needsRoster = false
+			}
+		}
+	}
 	var b strings.Builder
-	b.WriteString("(* generated by harness/cmd/translate failurelabel from core/task/manager.go handleMessage; do not edit *)\n")
-	b.WriteString("From Coq Require Import NArith List.\nImport ListNotations.\nOpen Scope N_scope.\n")
-	b.WriteString("(* terminal Mesos states whose status update puts an owned task in ERROR: 1 TASK_FAILED 2 TASK_LOST\n   3 TASK_KILLED 7 TASK_ERROR (99: a state unknown to the model) *)\n")
+	b.WriteString("(* generated by harness/cmd/translate failurelabel from core/task (Manager.handleMessage and its helpers, read\n   semantically); do not edit *)\n")
+	b.WriteString("From Coq Require Import NArith List Bool.\nImport ListNotations.\nOpen Scope N_scope.\n")
+	b.WriteString("(* Mesos states whose status update puts an owned, locked task in ERROR: 1 TASK_FAILED 2 TASK_LOST\n   3 TASK_KILLED 7 TASK_ERROR (99: a state unknown to the model) *)\n")
 	items := make([]string, len(states))
 	for i, c := range states {
 		items[i] = fmt.Sprint(c)
 	}
 	fmt.Fprintf(&b, "Definition error_case_states : list N := [%s].\n", strings.Join(items, "; "))
-	b.WriteString("(* if statements guarding `go m.updateTaskState(id, \"ERROR\")` inside that case; identifiers in their\n   conditions other than the task's roster entry, nil and IsLocked (anything taken from the status: reason,\n   source, ...); other branching around it; early exits of the status case before it *)\n")
-	fmt.Fprintf(&b, "Definition error_guard_ifs : N := %d.\n", guards)
-	fmt.Fprintf(&b, "Definition error_guard_foreign_idents : N := %d.\n", foreign)
-	fmt.Fprintf(&b, "Definition error_other_branching : N := %d.\n", otherBranch)
-	fmt.Fprintf(&b, "Definition error_early_exits : N := %d.\n", early)
+	b.WriteString("(* conditions on the label of the status (reason, presence of executor / agent id, anything else taken from\n   the status) that change the decision for some state *)\n")
+	fmt.Fprintf(&b, "Definition error_label_dependence : N := %d.\n", dep)
+	if dep > 0 {
+		fmt.Fprintf(&b, "(* %s *)\n", strings.ReplaceAll(strings.Join(culprits, " ; "), "*)", "* )"))
+	}
+	fmt.Fprintf(&b, "(* a task that is not in the roster is never put into ERROR *)\nDefinition error_requires_roster : bool := %v.\n", needsRoster)
 	return b.String()
+}
+
+// taintedIdents: the first parameter of the handler and every local assigned from an expression that
+// mentions a tainted identifier - except through a roster lookup, which yields the task, not the label
+func taintedIdents(fd *ast.FuncDecl) map[string]bool {
+	t := map[string]bool{}
+	if fd.Type.Params != nil {
+		for _, p := range fd.Type.Params.List {
+			for _, n := range p.Names {
+				t[n.Name] = true
+			}
+		}
+	}
+	for changed := true; changed; {
+		changed = false
+		ast.Inspect(fd.Body, func(n ast.Node) bool {
+			as, ok := n.(*ast.AssignStmt)
+			if !ok {
+				return true
+			}
+			for i, l := range as.Lhs {
+				id, ok := l.(*ast.Ident)
+				if !ok || t[id.Name] {
+					continue
+				}
+				var rhs ast.Expr
+				if len(as.Lhs) == len(as.Rhs) {
+					rhs = as.Rhs[i]
+				} else if len(as.Rhs) == 1 {
+					rhs = as.Rhs[0]
+				}
+				if rhs == nil {
+					continue
+				}
+				if c, ok := rhs.(*ast.CallExpr); ok {
+					switch calleeName(c.Fun) {
+					case "GetTask", "getByTaskId", "GetByTaskId":
+						continue
+					}
+				}
+				hit := false
+				ast.Inspect(rhs, func(x ast.Node) bool {
+					if y, ok := x.(*ast.Ident); ok && t[y.Name] {
+						hit = true
+					}
+					return !hit
+				})
+				if hit {
+					t[id.Name] = true
+					changed = true
+				}
+			}
+			return true
+		})
+	}
+	return t
+}
+
+var identRe = regexp.MustCompile(`[A-Za-z_][A-Za-z0-9_]*`)
+
+func atomLooksAtStatus(atom string, tainted map[string]bool) bool {
+	txt := strings.TrimPrefix(atom, "u:")
+	for _, id := range identRe.FindAllString(txt, -1) {
+		if tainted[id] {
+			return true
+		}
+		for _, w := range []string{"Status", "status", "Reason", "reason", "Source", "Label", "label", "UUID", "Uuid"} {
+			if strings.Contains(id, w) {
+				return true
+			}
+		}
+	}
+	return false
 }
